@@ -272,4 +272,8 @@ def journal_findings(repo, fi, cg, ctxvars):
                     out.append((c.func.value.id, res, norm(n.stmt)[:70], ok,
                                 "" if ok else f"`{norm(n.stmt)[:60]}` in {h.qual} can run before the acquire it records has completed: "
                                               f"the rollback then releases {res} once more than was acquired"))
+    for j, res in journals.items():
+        if not any(o[0] == j for o in out):
+            out.append((j, res, f"{j}.append(...)", False,
+                        f"the rollback loop of {fi.qual} iterates over `{j}` but nothing is ever appended to it: the rollback releases nothing"))
     return out
